@@ -93,7 +93,7 @@ theorem soundVal_of_valid {md0 : Items} {u : BVal} (vf : ValidFacts urlOk md0)
       obtain ⟨n, hn, hne'⟩ := sumFiles_enc files l' hl' hfacts hwx
       have hS : size? Li = some n := by
         simp [size?, (hlooki "length").1 hlen, hfb, hnfl, hn]
-      obtain ⟨ht0, _⟩ := totalLen_bounds files hfacts
+      have ht0 := totalLen_bounds files hfacts
       rw [expPieces_eq ht0 hpos.1] at hcount
       have : ((files.map Validate.fileLen).sum).toNat = n := by omega
       rw [this] at hcount
